@@ -51,7 +51,12 @@ pub fn enum_properties_inner(ast: &DeriveInput) -> syn::Result<TokenStream> {
                 Lit::Str(..) => PropertyType::String,
                 Lit::Bool(..) => PropertyType::Bool,
                 Lit::Int(..) => PropertyType::Integer,
-                _ => todo!("TODO"),
+                _ => {
+                    return Err(syn::Error::new_spanned(
+                        &value,
+                        "unsupported property literal: only string, integer and boolean literals are supported",
+                    ))
+                }
             };
 
             arms.get_mut(&property_type)
